@@ -99,7 +99,7 @@ CLAIMED = {
                      "by the solver; rendering must not raise, be stable and leave the tree unchanged, and the text must contain, in nesting "
                      "order, the tokens each injected fault requires (path components, expectation, value, key names, cause message).",
                 design_ref="DESIGN.md 5/C08", technique="symbolic execution (CrossHair+z3) over tree shapes, containment oracle"),
-    'C10': dict(text="Histories are symbolic: (i) use/drop sequences over 8 type factories under an id() allocator stub that may recycle the "
+    'C10': dict(text="Histories are symbolic: (i) use/drop sequences over 10 type factories under an id() allocator stub that may recycle the "
                      "ids of objects that really died (the solver decides when), every memoised lookup compared with a freshly built "
                      "converter; (ii) order of (type, handler form) calls and of generic subscriptions; (iii) KeyCache.__call__ re-emitted "
                      "from its source as a generator and two calls interleaved by symbolic schedule bits, plus sequential LRU histories "
